@@ -42,7 +42,7 @@ elif op == "mol2-roundtrip":
     m = ml.Molecule(name="sample")
     els = ["C", "N", "O", "Cl"]
     for i, el in enumerate(els):
-        m.add_atom(ml.Atom(el, label=f"{el}{i}"), [0.123456 * (i + 1), -1.5 * i, 100.25 + i], 0.125 * (i - 1))
+        m.add_atom(ml.Atom(el, label=f"{el}{i}" if i else "C1000"), [0.123456 * (i + 1), -1500.5 * i, 10000.25 + i], 0.125 * (i - 1))
     m.connect(0, 1, btype=ml.BondType.Double)
     m.connect(2, 1, btype=ml.BondType.Aromatic)
     m.connect(0, 3)
